@@ -28,11 +28,26 @@ def scenario(A, present):
     return sub
 
 
+def equal_under(ev, assumptions, a, b, unsat):
+    """a = b wherever the assumptions hold: every pair of differing ite-leaves lies on contradictory paths."""
+    ca = api.result_cases(a)
+    cb = api.result_cases(b)
+    if len(ca) * len(cb) > 400:
+        return False
+    for ga, la in ca:
+        for gb, lb in cb:
+            if la is lb:
+                continue
+            if not unsat(ev, list(assumptions) + list(ga) + list(gb)):
+                return False
+    return True
+
+
 def run(ctx, rep):
     rep.rule = ("abstract interpretation of the factor list over the 216-key space: F1 a key the user supplies keeps its "
                 "value unless it is one of the five forced keys (then (1,0,0)); F2 missing export keys default to the on-site "
                 "supply factor (step A) / the grid supply factor (step B), RED1/RED2 to the defaults; F3 pipelines are "
-                "normalize(set_user(parse|lookup)); F4 completeness on scenarios; F5 rejection; F6 idempotence on scenarios")
+                "normalize(set_user(parse|lookup)); F4 completeness on scenarios; F5 rejection; F6 idempotence on scenarios and, by composing normalize with itself in the key space, for every accepted file")
     rep.explanation = ("Which lines a user file contains is an exponential family; the abstraction keeps one presence symbol "
                        "and three value symbols per key, so user-value preservation and default sources are decided for "
                        "all files at once (files repeating a key are outside: first match).")
@@ -188,6 +203,51 @@ def run(ctx, rep):
             rep.discharged(key, "preparing the prepared set (%s) again changes nothing" % name)
         else:
             rep.violated(key, "preparing an already prepared set changes nothing", construct=where, why="differs at %s" % bad)
+    # F6 for every file at once: normalize evaluated on its own Ok result (composition in the key space);
+    # wherever the first pass accepts, the second accepts too and every key has the same presence and value
+    from .c04 import unsat
+    ev_b, r_b, _ab = ctx.eval_entry("lib", body, args=[out, defaults])
+    oks_b = [(g, l) for g, l in api.result_cases(r_b) if l.op == "adt" and l.a[0] == "Result" and l.a[1] == 0]
+    if len(oks_b) != 1:
+        rep.violated("C07/F6/all/anchor", "preparing a prepared set has one successful outcome", construct=where,
+                     why="%d Ok cases" % len(oks_b))
+    else:
+        g_b, l_b = oks_b[0]
+        m_b = A.of(tm.proj(l_b.a[2], 0, 1, "wdata"))
+        ok1 = tm.and_(*[A.cond(g) for g in gates])
+        ok2 = tm.and_(*[A.cond(g) for g in g_b])
+        unit = {}
+        for cj in (ok1.a if ok1.op == "and" else (ok1,)):
+            if cj.op == "not":
+                unit[cj.a[0]] = tm.FALSE
+            elif cj.op not in ("or", "and", "ite"):
+                unit[cj] = tm.TRUE
+        acc = tm.subst(ok2, unit)
+        if acc is tm.TRUE or unsat(ev_b, [ok1, tm.not_(ok2)]):
+            rep.discharged("C07/F6/all/accepted", "a set accepted by normalize is accepted again after preparation (all files)")
+        else:
+            rep.violated("C07/F6/all/accepted", "preparing an already prepared set never fails", construct=where,
+                         why="second acceptance condition under the first: %s" % tm.show(acc, 3)[:200])
+        nbad = 0
+        for k in A.keys:
+            p1, v1 = m[k]
+            p2, v2 = m_b[k]
+            okp = p1 is p2 or tm.subst(p1, unit) is tm.subst(p2, unit) or \
+                (unsat(ev_b, [ok1, p1, tm.not_(p2)]) and unsat(ev_b, [ok1, tm.not_(p1), p2]))
+            okv = all(v1[f] is v2[f] or tm.subst(v1[f], unit) is tm.subst(v2[f], unit) for f in keyspace.VAL_FIELDS)
+            if not okv and okp:
+                # values only matter where the key is present; compare leaf by leaf under the path conditions
+                okv = all(equal_under(ev_b, [ok1, p1], v1[f], v2[f], unsat) for f in keyspace.VAL_FIELDS)
+            if okp and okv:
+                continue
+            nbad += 1
+            if nbad <= 5:
+                rep.violated("C07/F6/all/%s" % key_name(k), "preparing an already prepared set changes nothing (any file)", construct=where,
+                             why="%s differs after a second preparation: presence %s -> %s" % (key_name(k), tm.show(tm.subst(p1, unit), 2)[:80],
+                                                                                          tm.show(tm.subst(p2, unit), 2)[:80]))
+        if nbad == 0:
+            rep.discharged("C07/F6/all/keys", "for an arbitrary accepted file every one of the 216 keys has the same presence and value after a second preparation",
+                           derivation="composition normalize∘normalize in the key-space abstraction")
     # F3 pipelines and user factors
     sub_body = ctx.find_public_fn(lib, "Factors::set_user_wfactors")
     ev2, r2, a2 = ctx.eval_entry("lib", sub_body)
